@@ -36,6 +36,7 @@ REQUIRED = ["accepted_create_sound", "accepted_create_signed_by_did_key", "accep
             "removeVM_absent", "removeVM_keeps_others", "removeVM_length_eq_iff", "removeVM_preserves_validity",
             "managerRemoveVM_sound", "managerRemoveVM_noop", "managerRemoveVM_unknown", "removed_method_no_longer_authorises",
             "isCommitted_true_iff", "isCommitted_errors", "isCommitted_reads_what_update_reads",
+            "add_then_contains", "own_add_is_the_ambassadors_add", "own_update_redelivery_inert", "own_add_then_isCommitted",
             "fact_remove_vm_steps", "fact_godid_remove_vm", "fact_is_committed"]
 
 FULL_DOC_RE = re.compile(r"doc=(\S+?)\{Context:\[[^\]]*\];Controller:\[([^\]]*)\];VerificationMethod:\[([^\]]*)\];Authentication:\[[^\]]*\];"
@@ -301,6 +302,7 @@ def run(ctx):
     kinds, classes, labels = Counter(), Counter(), Counter()
     distinct = set()
     own_created = Counter()   # how the ambassador answered the creations the node published itself
+    pending_obs, own_added_at = None, -10
     maintain = Counter()   # round 3: RemoveVerificationMethod / IsCommitted outcomes
     mgr_classes, published = Counter(), Counter()   # Manager.Update outcomes; how the ambassador answered what the node published
     entry_hits = Counter()  # executed failing store calls per fault kind
@@ -368,7 +370,21 @@ def run(ctx):
                 report("dag-verifier-admits-what-the-model-refuses:" + re.sub(r"[^a-z:-]", "", model[i].split(" ")[-1]),
                        "the DAG signature verifier admitted a transaction that the model's verifier refuses with " + model[i].split(" ")[-1], i)
             continue
+        if pending_obs is not None:
+            cur_obs, pending_obs = pending_obs, None
         if op["op"] == "mgr":
+            if " OBS " in line:
+                # Manager.Update wrote its transaction to the store itself (own-add=ok): the observation after that write
+                line, own_obs = line.split(" OBS ", 1)
+                own_added_at = i
+                maintain["own-add:ok"] += 1
+                if own_obs != "=":
+                    pending_obs = own_obs
+                    bad_vm = stored_vm_mismatch(own_obs) or stored_service_type_twice(own_obs)
+                    if bad_vm:
+                        report("manager-stores-ill-formed-document", "after Manager.Update's own store.Add a resolvable document is ill-formed: " + bad_vm, i)
+            elif " own-add=" in line:
+                maintain["own-add:" + line.split(" own-add=", 1)[1][:40]] += 1
             # ---- the node's own publishing path (Manager.Update): direct oracles on what the implementation handed to the network
             mm = re.match(r"mgr \S+ (\S+)(?: kid=(\S+) prevs=\[([^\]]*)\])?(.*)$", line)
             if not mm:
@@ -501,6 +517,13 @@ def run(ctx):
             scripted_outcomes[kind + " -> " + cls.split("+")[0]] += 1
         distinct.add((kind.split(":")[0], cls, bool(op["tx"].get("embedded")), len(op["tx"]["prevs"]) > 1))
         prev_obs = cur_obs
+        if own_added_at == i - 1 and op["raw"]["kind"] == "mgr:published":
+            # own_update_redelivery_inert: the transaction the manager wrote itself comes back through the network as a duplicate
+            maintain["own-add:redelivery:" + cls.split(":")[0] + ":" + ("db-changed" if "db-changed" in flags else "db-same")] += 1
+            if "db-changed" in flags or shown != "=":
+                report("own-update-redelivery-changes-the-store",
+                       "Manager.Update wrote its transaction to the store itself; the delivery of the same transaction through the ambassador "
+                       f"({cls}) changed the store again", i)
         if shown != "=":
             cur_obs = shown
             bad_vm = stored_vm_mismatch(shown)
